@@ -130,7 +130,7 @@ func TestVerifC05(t *testing.T) {
 			}
 			return c05Pairs[i-len(c05Singles)]
 		},
-		Runs:    map[string]int{"quick": 4000, "thorough": 400000},
+		Runs:    map[string]int{"quick": 20000, "thorough": 800000},
 		LeakSig: "C05/goroutine-leak",
 		Real:    []string{"pkg/station/lib.Proxy", "pkg/station/lib.halfPipe", "pkg/station/lib.generalizeErr", "tunnelStats / ProxyStats accounting"},
 		Stub:    []string{"client and covert TCP connections (simnet)", "net.Dial (seam)", "peers (scripted actors)"},
